@@ -514,6 +514,7 @@ theorem leaky_total (hsz : H → Nat) (evs : List (LEv H)) :
       | inr h => rw [h]; exact lItem_ok pooled hdr ssrc payload
     | bind s => simp only [lrun, lexec]; exact ih _ hok
     | setRate r => simp only [lrun, lexec]; exact ih _ hok
+    | setFails s fl => simp only [lrun, lexec]; exact ih _ hok
     | tick now =>
       obtain ⟨st', h1, h2⟩ := leakyLoop_total hsz now st.queue
         (leakyBudget now st.lastSent st.target : Nat) st hok
@@ -634,6 +635,10 @@ theorem leaky_fifo_exactly_once (mk : List Nat → H → Nat → List Nat → It
     | setRate r =>
       simp only [lrun, lexec] at h
       have hinv' : LInv mk { st with target := leakyTarget r } ws := hinv
+      simpa [writesOf] using ih _ st' _ hinv' h
+    | setFails s fl =>
+      simp only [lrun, lexec] at h
+      have hinv' : LInv mk { st with fails := rebindFails st.fails s fl } ws := hinv
       simpa [writesOf] using ih _ st' _ hinv' h
     | tick now =>
       simp only [lrun, lexec, leakyTick] at h
